@@ -418,6 +418,7 @@ func check(id, tier string) int {
 	}
 	// merge
 	tot := shardResult{Outcomes: map[string]int{}, Races: map[string]string{}, Extra: map[string]int{}}
+	selfcheckInfra := ""
 	for i, c := range crashes {
 		if c == "" {
 			continue
@@ -434,7 +435,12 @@ func check(id, tier string) int {
 			continue
 		}
 		if r.Infra != "" {
-			infra("%s", r.Infra)
+			if strings.HasPrefix(r.Infra, "NONDETERMINISM-SELFCHECK") {
+				// decided after the merge: an infrastructure error only if no shard reports a violation
+				selfcheckInfra = r.Infra
+			} else {
+				infra("%s", r.Infra)
+			}
 		}
 		tot.Scenarios += r.Scenarios
 		tot.Executions += r.Executions
@@ -469,6 +475,12 @@ func check(id, tier string) int {
 		if len(r.Assume) > 0 {
 			tot.Assume = r.Assume
 		}
+	}
+	if selfcheckInfra != "" {
+		if len(tot.Violations) == 0 {
+			infra("%s", selfcheckInfra)
+		}
+		fmt.Fprintf(os.Stderr, "note: %s (violations are reported, each validated by replays of its own schedule: the code under test makes choices of its own)\n", selfcheckInfra)
 	}
 	if len(tot.Samples) > 6 {
 		tot.Samples = tot.Samples[:6]
